@@ -703,9 +703,12 @@ def run_case(ctx, case):
                 lbls = [str(zv) for zv in zvals]
                 if kw.get("zlabels"):
                     lbls = list(kw["zlabels"])[:len(zvals)]
-            if any(len(s) == 0 for s in samples):
+            if all(len(s) == 0 for s in samples):
                 ctx.count("hist_panels_with_empty_series")
                 continue
+            if any(len(s) == 0 for s in samples):
+                # a series without any finite value has no density of its own: it is only required not to disturb the others
+                ctx.count("hist_panels_with_empty_series")
             allv = np.concatenate(samples)
             if "xlims" in kw:
                 ctx.count("histograms_with_explicit_axis_limits")
@@ -719,6 +722,8 @@ def run_case(ctx, case):
                 bad.append("%d histogram polygons for %d series" % (len(plist), len(samples)))
                 continue
             for k, (s, lb) in enumerate(zip(samples, lbls)):
+                if len(s) == 0:
+                    continue
                 poly = polys.get(lb) if lb is not None and lb in polys else plist[k]
                 e2, h2 = hist_heights(poly)
                 want_h, _ = np.histogram(s, bins=edges, density=True)
